@@ -534,3 +534,77 @@ pub fn run_c20(tier: &str, deadline: Instant, total: &mut Stats, log: &mut Vec<V
 
 #[allow(dead_code)]
 fn _unused(_: Status) {}
+
+// ---------------------------------------------------------------------------
+// replay of recorded history / simultaneous-run violations
+
+fn any_from_json(v: &Value) -> Option<AnyCfg> {
+    match v["engine"].as_str()? {
+        "S" => serde_json::from_value(v["cfg"].clone()).ok().map(AnyCfg::S),
+        "C" => serde_json::from_value(v["cfg"].clone()).ok().map(AnyCfg::C),
+        _ => None,
+    }
+}
+
+/// Returns 1 if the recorded violation reproduces, 0 if not, 2 on malformed input.
+pub fn replay_h(prop: u8, spec: &Spec, detail: &Value, choices: &[u16]) -> i32 {
+    match prop {
+        15 => {
+            let (Some(first), Some(second)) = (any_from_json(&detail["first"]), any_from_json(&detail["second"])) else {
+                eprintln!("malformed C15 record");
+                return 2;
+            };
+            let first_choices: Vec<u16> = serde_json::from_value(detail["first_choices"].clone()).unwrap_or_default();
+            let second_choices: Vec<u16> = serde_json::from_value(detail["second_choices"].clone()).unwrap_or_default();
+            let mut g = build(spec);
+            let r1 = run_any(&mut g, &first, first_choices);
+            println!("first run on the graph : {}", r1.text);
+            let r2 = run_any(&mut g, &second, second_choices.clone());
+            println!("second run, same graph : {}", r2.text);
+            let mut gf = build(spec);
+            let rf = run_any(&mut gf, &second, second_choices);
+            println!("second run, fresh graph: {}", rf.text);
+            if r2.sig != rf.sig {
+                println!("REPRODUCED C15: the run on the reused graph differs from the run on a fresh graph");
+                1
+            } else {
+                println!("the recorded violation does NOT reproduce on the current tree");
+                0
+            }
+        }
+        20 => {
+            let (Ok(ca), Ok(cb)) = (serde_json::from_value::<RunCfg>(detail["a"].clone()), serde_json::from_value::<RunCfg>(detail["b"].clone())) else {
+                eprintln!("malformed C20 record");
+                return 2;
+            };
+            let sb = detail["switch_bound"].as_u64().unwrap_or(64) as usize;
+            let g = build(spec);
+            match run_pair(&g, &ca, &cb, choices.to_vec(), sb) {
+                Err(m) => {
+                    println!("REPRODUCED C20: {m}");
+                    1
+                }
+                Ok(pr) => {
+                    let mut bad = false;
+                    for (name, cfg, r) in [("A", &ca, &pr.a), ("B", &cb, &pr.b)] {
+                        let mut gf = build(spec);
+                        let solo = run_on(&mut gf, cfg, r.taken.iter().map(|t| t.c).collect());
+                        println!("run {name} next to the other run: {:?} -> {:?} {:?}", r.ev, r.status, r.out);
+                        println!("run {name} alone, same answers   : {:?} -> {:?} {:?}", solo.ev, solo.status, solo.out);
+                        if sig_s(&solo) != sig_s(r) {
+                            bad = true;
+                        }
+                    }
+                    if bad {
+                        println!("REPRODUCED C20: a run behaves differently next to another run than alone");
+                        1
+                    } else {
+                        println!("the recorded violation does NOT reproduce on the current tree");
+                        0
+                    }
+                }
+            }
+        }
+        _ => 2,
+    }
+}
